@@ -6,7 +6,10 @@ package gtree
 // in one Write, so the whole output must be the concatenation of the expected records in order.
 func encMatches(kind int, out string, want []*rec) bool {
 	exp := ""
-	for _, r := range want {
+	for i, r := range want {
+		if kind == encYAML && i > 0 {
+			exp += "---\n" // yaml.v3 separates the documents of one encoder
+		}
 		exp += recText(r) + "\n"
 	}
 	return out == exp
